@@ -1,7 +1,7 @@
 (* C19: proofs about Model/Elab.v — repeated elaboration of a multiplexer, termination of the shadow
    doubling (and divergence of the original loop), submodule naming, and definedness of the partial
    operations accepted constructor arguments lead to. *)
-From Coq Require Import ZArith List Bool Lia ZifyBool.
+From Coq Require Import ZArith List Bool Lia ZifyBool FinFun.
 From Soc Require Import Lib.Bits Lib.Res Lib.Pattern Model.Mux Model.MuxSpec Model.Elab
                         Proofs.ShadowHash Proofs.MuxPrepare.
 From Soc Require Model.WbDecoder Model.Arbiter.
@@ -393,12 +393,26 @@ Proof.
       apply (IH (s :: seen)); auto.
 Qed.
 
-Theorem bridge_submodules_ok names : exists r,
-  bridge_submodules names = Ok r /\ names_accepted [] r = true /\ length r = S (length names).
+(* the name the while loop of Bridge.elaborate settles on is free *)
+Lemma pick_name_free seen j : forall fuel k c s, pick_name fuel seen j k c = Ok s -> str_mem s seen = false.
 Proof.
-  unfold bridge_submodules. destruct (assign_names_total false names [mux_name]) as (r & E & Hl).
-  rewrite E. exists (Some mux_name :: r). split; [reflexivity|]. split; [|cbn; lia].
-  cbn [names_accepted str_mem existsb negb andb]. apply (assign_names_accepted false names); auto.
+  induction fuel as [|f IH]; intros k c s H; cbn [pick_name] in H.
+  - destruct (str_mem c seen) eqn:E; [discriminate|]. injection H as <-. exact E.
+  - destruct (str_mem c seen) eqn:E; [eapply IH; exact H|]. injection H as <-. exact E.
+Qed.
+
+(* E1 for csr.Bridge after 823f054: whenever the loop returns, the names handed to m.submodules[...]
+   are pairwise distinct and every register gets a (named) submodule of its own *)
+Theorem bridge_names_accepted : forall names seen r, bridge_names seen names = Ok r ->
+  names_accepted seen r = true /\ length r = length names /\ Forall (fun o => o <> None) r.
+Proof.
+  induction names as [|n names IH]; intros seen r H; cbn [bridge_names] in H.
+  - injection H as <-. repeat split. constructor.
+  - destruct (join_name n) as [j|e]; [|discriminate].
+    destruct (pick_name (length seen) seen j 0 j) as [s|e] eqn:Ep; [|discriminate].
+    destruct (bridge_names (s :: seen) names) as [r'|e] eqn:E'; [|discriminate]. injection H as <-.
+    destruct (IH _ _ E') as (A & B & C). cbn [names_accepted length].
+    rewrite (pick_name_free _ _ _ _ _ _ Ep). cbn. repeat split; auto. constructor; [discriminate|exact C].
 Qed.
 
 Theorem register_submodules_ok paths : exists r,
@@ -454,4 +468,153 @@ Proof.
   intros Hg H Hin. pose proof (first_refused_none c _ _ H ic Hin) as Hok.
   unfold AR.add_ok in Hok. repeat (apply andb_prop in Hok; destruct Hok as [Hok ?]).
   split; [|split; lia]. unfold AR.i_ratio. apply Z.div_le_lower_bound; lia.
+Qed.
+
+(* ------------------------------------------------------------------------------------------ *)
+(* (iii, continued) the suffix loop of csr.Bridge.elaborate (fix 823f054) terminates            *)
+(* ------------------------------------------------------------------------------------------ *)
+
+(* ---------- decimal printing is injective ---------- *)
+Lemma digits_lsd_nonempty f n : digits_lsd (S f) n <> [].
+Proof. cbn. discriminate. Qed.
+
+Lemma digits_lsd_inj : forall f n m, 0 <= n < 10 ^ Z.of_nat f -> 0 <= m < 10 ^ Z.of_nat f ->
+  digits_lsd f n = digits_lsd f m -> n = m.
+Proof.
+  induction f as [|f IH]; intros n m Hn Hm H.
+  - change (Z.of_nat 0) with 0 in Hn, Hm. rewrite Z.pow_0_r in Hn, Hm. lia.
+  - cbn [digits_lsd] in H.
+    pose proof (f_equal (@hd Z 0) H) as Hd. pose proof (f_equal (@tl Z) H) as Ht. cbn [hd tl] in Hd, Ht.
+    assert (Hmod : n mod 10 = m mod 10) by lia.
+    rewrite Nat2Z.inj_succ, Z.pow_succ_r in Hn, Hm by lia.
+    destruct (n <? 10) eqn:En; destruct (m <? 10) eqn:Em.
+    + rewrite Z.mod_small in Hmod by lia. rewrite Z.mod_small in Hmod by lia. exact Hmod.
+    + destruct f; [cbn in Hm; lia|]. exfalso. symmetry in Ht. exact (digits_lsd_nonempty _ _ Ht).
+    + destruct f; [cbn in Hn; lia|]. exfalso. exact (digits_lsd_nonempty _ _ Ht).
+    + assert (n / 10 = m / 10).
+      { apply IH; auto; split; try (apply Z.div_pos; lia); apply Z.div_lt_upper_bound; lia. }
+      rewrite (Z.div_mod n 10), (Z.div_mod m 10) by lia. lia.
+Qed.
+
+Lemma digits_lsd_fuel : forall f f' n, 0 <= n < 10 ^ Z.of_nat (S f) -> n < 10 ^ Z.of_nat (S f') ->
+  digits_lsd (S f) n = digits_lsd (S f') n.
+Proof.
+  induction f as [|f IH]; intros f' n Hn Hn'.
+  - cbn in Hn. cbn [digits_lsd]. replace (n <? 10) with true by lia. reflexivity.
+  - cbn [digits_lsd]. destruct (n <? 10) eqn:E; [reflexivity|].
+    destruct f' as [|f']; [cbn in Hn'; lia|]. f_equal.
+    rewrite Nat2Z.inj_succ, Z.pow_succ_r in Hn, Hn' by lia.
+    apply IH; [split; [apply Z.div_pos; lia | apply Z.div_lt_upper_bound; lia] | apply Z.div_lt_upper_bound; lia].
+Qed.
+
+Lemma fuel_covers n : 0 <= n -> n < 10 ^ Z.of_nat (S (Z.to_nat (Z.log2 n))).
+Proof.
+  intros Hn. pose proof (Z.log2_nonneg n) as Hl.
+  rewrite Nat2Z.inj_succ, Z2Nat.id by lia.
+  destruct (Z.eq_dec n 0) as [->|Hne]; [cbn; lia|].
+  destruct (Z.log2_spec n ltac:(lia)) as [_ Hhi].
+  assert (2 ^ Z.succ (Z.log2 n) <= 10 ^ Z.succ (Z.log2 n)) by (apply Z.pow_le_mono_l; lia). lia.
+Qed.
+
+Lemma str_of_nat_inj n m : 0 <= n -> 0 <= m -> str_of_nat n = str_of_nat m -> n = m.
+Proof.
+  intros Hn Hm H. unfold str_of_nat in H.
+  apply (f_equal (@rev Z)) in H. rewrite !rev_involutive in H.
+  pose proof (fuel_covers n Hn) as Fn. pose proof (fuel_covers m Hm) as Fm.
+  set (a := Z.to_nat (Z.log2 n)) in *. set (b := Z.to_nat (Z.log2 m)) in *.
+  assert (Ha : 10 ^ Z.of_nat (S a) <= 10 ^ Z.of_nat (S (Nat.max a b))) by (apply Z.pow_le_mono_r; lia).
+  assert (Hb : 10 ^ Z.of_nat (S b) <= 10 ^ Z.of_nat (S (Nat.max a b))) by (apply Z.pow_le_mono_r; lia).
+  rewrite (digits_lsd_fuel a (Nat.max a b) n) in H by lia.
+  rewrite (digits_lsd_fuel b (Nat.max a b) m) in H by lia.
+  apply (digits_lsd_inj (S (Nat.max a b))); auto; lia.
+Qed.
+
+(* ---------- the suffix loop of Bridge.elaborate terminates ---------- *)
+Lemma str_eqb_eq a : forall b, str_eqb a b = true <-> a = b.
+Proof.
+  induction a as [|x a IH]; destruct b as [|y b]; cbn [str_eqb]; split; intros H; try discriminate; auto.
+  - apply andb_prop in H. destruct H as [H1 H2]. apply IH in H2. apply Z.eqb_eq in H1. subst. reflexivity.
+  - injection H as -> ->. rewrite Z.eqb_refl. apply IH. reflexivity.
+Qed.
+
+Lemma str_mem_In s l : str_mem s l = true <-> In s l.
+Proof.
+  unfold str_mem. rewrite existsb_exists. split.
+  - intros (x & Hx & E). apply str_eqb_eq in E. subst. exact Hx.
+  - intros H. exists s. split; auto. apply str_eqb_eq. reflexivity.
+Qed.
+
+(* the k-th candidate name: joined, joined_1, joined_2, ... *)
+Definition cand (j : str) (k : Z) : str := if k =? 0 then j else j ++ 95 :: str_of_int k.
+
+Lemma cand_inj j a b : 0 <= a -> 0 <= b -> cand j a = cand j b -> a = b.
+Proof.
+  unfold cand. intros Ha Hb H. destruct (a =? 0) eqn:Ea; destruct (b =? 0) eqn:Eb; try lia.
+  - exfalso. apply (f_equal (@length Z)) in H. rewrite app_length in H. cbn [length] in H. lia.
+  - exfalso. apply (f_equal (@length Z)) in H. rewrite app_length in H. cbn [length] in H. lia.
+  - apply app_inv_head in H. pose proof (f_equal (@tl Z) H) as Ht. cbn [tl] in Ht.
+    unfold str_of_int in Ht. replace (a <? 0) with false in Ht by lia. replace (b <? 0) with false in Ht by lia.
+    apply str_of_nat_inj; auto.
+Qed.
+
+Lemma pick_name_finds seen j : forall fuel k, 0 <= k ->
+  (exists i, k <= i <= k + Z.of_nat fuel /\ str_mem (cand j i) seen = false) ->
+  exists s, pick_name fuel seen j k (cand j k) = Ok s.
+Proof.
+  induction fuel as [|f IH]; intros k Hk (i & Hi & Hfree).
+  - assert (i = k) by lia. subst. cbn [pick_name]. rewrite Hfree. eauto.
+  - cbn [pick_name]. destruct (str_mem (cand j k) seen) eqn:E; [|eauto].
+    replace (j ++ 95 :: str_of_int (k + 1)) with (cand j (k + 1))
+      by (unfold cand; replace (k + 1 =? 0) with false by lia; reflexivity).
+    apply IH; [lia|]. exists i. split; auto.
+    assert (i <> k) by (intro; subst; congruence). lia.
+Qed.
+
+Lemma forallb_false {X} (f : X -> bool) l : forallb f l = false -> exists x, In x l /\ f x = false.
+Proof.
+  induction l as [|x l IH]; cbn; [discriminate|]. destruct (f x) eqn:E; cbn; intros H.
+  - destruct (IH H) as (y & Hy & Ey). eauto.
+  - eauto.
+Qed.
+
+(* pigeonhole: of the |seen| + 1 pairwise distinct candidates one is not taken *)
+Lemma some_cand_free seen j : exists i, 0 <= i <= Z.of_nat (length seen) /\ str_mem (cand j i) seen = false.
+Proof.
+  set (cs := map (fun n => cand j (Z.of_nat n)) (seq 0 (S (length seen)))).
+  destruct (forallb (fun c => str_mem c seen) cs) eqn:E.
+  - exfalso.
+    assert (Hnd : NoDup cs).
+    { apply Injective_map_NoDup; [|apply seq_NoDup].
+      intros a b H. apply cand_inj in H; lia. }
+    assert (Hincl : incl cs seen).
+    { intros c Hc. rewrite forallb_forall in E. apply str_mem_In. apply E. exact Hc. }
+    pose proof (NoDup_incl_length Hnd Hincl) as Hlen.
+    unfold cs in Hlen. rewrite map_length, seq_length in Hlen. lia.
+  - apply forallb_false in E. destruct E as (c & Hc & Ec). unfold cs in Hc.
+    apply in_map_iff in Hc. destruct Hc as (n & <- & Hn). apply in_seq in Hn.
+    exists (Z.of_nat n). split; [lia | exact Ec].
+Qed.
+
+Theorem bridge_names_total : forall names seen, exists r, bridge_names seen names = Ok r.
+Proof.
+  induction names as [|n names IH]; intros seen; [exists []; reflexivity|].
+  cbn [bridge_names]. destruct (submodule_name_total n) as (j & ->).
+  destruct (some_cand_free seen j) as (i & Hi & Hfree).
+  destruct (pick_name_finds seen j (length seen) 0 ltac:(lia)) as (s & Hs).
+  { exists i. split; [lia | exact Hfree]. }
+  change (cand j 0) with j in Hs. rewrite Hs.
+  destruct (IH (s :: seen)) as (r & ->). eauto.
+Qed.
+
+(* csr.Bridge: for every list of register names, naming succeeds, the multiplexer and every register get
+   a named submodule of their own, and no name handed to m.submodules[...] is already taken *)
+Theorem bridge_submodules_ok names : exists r,
+  bridge_submodules names = Ok r /\ names_accepted [] r = true /\ length r = S (length names) /\
+  Forall (fun o => o <> None) r.
+Proof.
+  unfold bridge_submodules. destruct (bridge_names_total names [mux_name]) as (r & E). rewrite E.
+  destruct (bridge_names_accepted names [mux_name] r E) as (A & B & C).
+  exists (Some mux_name :: r). split; [reflexivity|]. split; [|split; [cbn; lia|]].
+  - cbn [names_accepted str_mem existsb negb andb]. exact A.
+  - constructor; [discriminate | exact C].
 Qed.
